@@ -95,6 +95,9 @@ impl Op {
 pub enum Fin {
     Finish,
     IntoInner,
+    /// the caller drops the builder without finishing it (only used for
+    /// disturber tasks whose output nobody looks at)
+    Abandon,
 }
 
 #[derive(Clone, Debug, PartialEq, Eq)]
@@ -500,6 +503,10 @@ impl<W: Write> AnyBuilder<W> {
                 },
                 None,
             ),
+            Fin::Abandon => {
+                drop(self);
+                (Ok(()), None)
+            }
             Fin::IntoInner => {
                 let r = match self {
                     AnyBuilder::Raw(b) => b.into_inner(),
